@@ -4,8 +4,11 @@ From GV Require Import Base.Prelude SchemaOps.Schema SchemaOps.Introspect Schema
 Fixpoint tref_depth (t : tref) : nat :=
   match t with TNamed _ => O | TList i => S (tref_depth i) | TNonNull i => S (tref_depth i) end.
 
-Definition arg_ok (a : arg) : Prop := (tref_depth (a_type a) <= TYPE_DEPTH)%nat.
-Definition field_ok (f : field) : Prop := (tref_depth (f_type f) <= TYPE_DEPTH)%nat /\ Forall arg_ok (f_args f).
+(* [okv]: the default-value literals for which the printer / parser pair of literals round-trips *)
+Definition arg_okv (okv : value -> Prop) (a : arg) : Prop :=
+  (tref_depth (a_type a) <= TYPE_DEPTH)%nat /\ match a_default a with Some v => okv v | None => True end.
+Definition field_okv okv (f : field) : Prop :=
+  (tref_depth (f_type f) <= TYPE_DEPTH)%nat /\ Forall (arg_okv okv) (f_args f).
 
 (* containers that do not apply to the kind of a type are empty (introspection cannot carry them) *)
 Definition canonical_type (t : typedef) : Prop :=
@@ -16,10 +19,19 @@ Definition canonical_type (t : typedef) : Prop :=
   /\ (t_kind t <> 5 -> t_inputs t = [] /\ t_oneof t = false)
   /\ (t_kind t <> 0 -> t_specified_by t = None).
 
-Definition type_ok (t : typedef) : Prop :=
-  canonical_type t /\ Forall field_ok (t_fields t) /\ Forall arg_ok (t_inputs t).
-Definition dir_ok (d : directive) : Prop := Forall arg_ok (d_args d).
-Definition client_ok (s : schema) : Prop := Forall type_ok (s_types s) /\ Forall dir_ok (s_directives s).
+Definition type_okv okv (t : typedef) : Prop :=
+  canonical_type t /\ Forall (field_okv okv) (t_fields t) /\ Forall (arg_okv okv) (t_inputs t).
+Definition dir_okv okv (d : directive) : Prop := Forall (arg_okv okv) (d_args d).
+Definition client_okv okv (s : schema) : Prop :=
+  Forall (type_okv okv) (s_types s) /\ Forall (dir_okv okv) (s_directives s).
+
+(* no condition on the literals (for a printer / parser pair that round-trips on every literal) *)
+Definition any_value (v : value) : Prop := True.
+Definition arg_ok := arg_okv any_value.
+Definition field_ok := field_okv any_value.
+Definition type_ok := type_okv any_value.
+Definition dir_ok := dir_okv any_value.
+Definition client_ok := client_okv any_value.
 
 Lemma mapM_map {A B} (f : B -> option A) (g : A -> B) l :
   (forall x, In x l -> f (g x) = Some x) -> mapM f (map g l) = Some l.
@@ -44,7 +56,13 @@ Qed.
 Section Props.
 Variable pv : value -> list N.
 Variable parse : list N -> option value.
-Hypothesis parse_print : forall v, parse (pv v) = Some v.
+Variable okv : value -> Prop.
+Hypothesis parse_print : forall v, okv v -> parse (pv v) = Some v.
+Notation arg_ok := (arg_okv okv).
+Notation field_ok := (field_okv okv).
+Notation type_ok := (type_okv okv).
+Notation dir_ok := (dir_okv okv).
+Notation client_ok := (client_okv okv).
 Variable s : schema.
 
 Lemma tref_roundtrip d t : (tref_depth t <= d)%nat -> tref_of (S d) (typeref s d t) = Some t.
@@ -67,10 +85,10 @@ Qed.
 
 Lemma arg_roundtrip a : arg_ok a -> arg_of parse (input_value pv s full a) = Some a.
 Proof.
-  intro H. unfold arg_of, input_value, full, kv_if. cbn -[typeref tref_of REF_FUEL TYPE_DEPTH].
+  intros [H Hv]. unfold arg_of, input_value, full, kv_if. cbn -[typeref tref_of REF_FUEL TYPE_DEPTH].
   change REF_FUEL with (S TYPE_DEPTH). rewrite (tref_roundtrip TYPE_DEPTH (a_type a) H).
-  destruct a as [n t [v|] ds dp]; cbn -[typeref tref_of].
-  - rewrite parse_print, !jotext_jopt. reflexivity.
+  destruct a as [n t [v|] ds dp]; cbn -[typeref tref_of] in *.
+  - rewrite (parse_print v Hv), !jotext_jopt. reflexivity.
   - rewrite !jotext_jopt. reflexivity.
 Qed.
 
